@@ -342,6 +342,39 @@ def recv_guards(rep, u):
                                          "%s vs %s" % (n2(setk), sorted(n2(c) for c in chk)))
 
 
+def running_predicate(rep, ut):
+    """tpt_msg_send decides 'destination alive' with tpt_is_running(): it must hold exactly for RUNNING and STARTING
+    (finite-domain evaluation over the four thread states)"""
+    from rules import r_stride
+    fn = tp.need(ut, "tpt_is_running")
+    rep.functions.add(fn.name)
+    states = tp.probe(tp.TP_C, {n: "TP_THREAD_STATE_" + n for n in ("STOP", "STOPING", "STARTING", "RUNNING")}, "probe:tpstate")
+    if any(v is None for v in states.values()):
+        raise driver.AnalysisBroken("thread state constants not foldable")
+    pe = r_stride.PE(ut)
+    bad = []
+    undec = None
+    for nm, v in sorted(states.items(), key=lambda kv: kv[1]):
+        outs = pe.explore(fn, fn.entry, {"tpt": 0x1000, "tpt->state": v})
+        vals = {(o[1], o[2]) for o in outs if o[0] == "ret"}
+        if len(vals) != 1 or not list(vals)[0][1] or list(vals)[0][0] is None:
+            undec = "state %s: result not determined" % nm
+            continue
+        got = bool(list(vals)[0][0])
+        if got != (nm in ("RUNNING", "STARTING")):
+            bad.append("%s is reported as %s" % (nm, "running" if got else "not running"))
+    desc = "tpt_is_running() holds exactly for the states STARTING and RUNNING (a stopping or stopped thread gets no queued message)"
+    if bad:
+        rep.violated("R-STATE", fn, "running-predicate", desc, "; ".join(bad))
+    elif undec:
+        rep.undecided("R-STATE", fn, "running-predicate", desc, undec)
+    else:
+        rep.proved("R-STATE", fn, "running-predicate", desc, "evaluated for %s" % sorted(states))
+    # and the send path consults it
+    fs = None
+    return 1
+
+
 def run(rep, tier):
     us = tp.units((tp.MSG_C, tp.TP_C))
     rep.use_units(us)
@@ -352,6 +385,7 @@ def run(rep, tier):
     rep.floor("tpt_msg_send acyclic paths", n, 10)
     atomicity(rep, u, us[tp.TP_C])
     recv_guards(rep, u)
+    running_predicate(rep, us[tp.TP_C])
     return driver.finish(
         rep, "other",
         "Static analysis of threadpool_msg_sys.c. Decided: all %d acyclic paths of tpt_msg_send fall into the seven "
